@@ -126,7 +126,7 @@ def run_harness(ctx, scenarios, label, timeout=900):
 
 
 def _validate(ctx, tracefile):
-    r = ctx.validate('H2RoundTripTrace', tracefile)
+    r = ctx.validate('H2RoundTripTrace', tracefile, chunk=2500)
     bad = {}
     for s in r.printed('BAD'):
         m = re.match(r'(\d+) (.*)$', s, re.S)
@@ -149,11 +149,16 @@ def judge(ctx, scenarios, tracefile, props, label='rt', confirm=True):
 
     def rerun(scs, lab):
         return _validate(ctx, run_harness(ctx, scs, lab))
+    xseen = 0
     for t, clauses in sorted(bad.items()):
         for c in clauses:
             p = c.split(':', 1)[0]
             if p == 'X':
-                ctx.inconclusive.append('rt trace %d: %s' % (t, c))
+                # a harness-level trouble (quiescence not reached in time, driver panic) makes the run inconclusive only if
+                # it happens again when the scenario is replayed on its own: under load one slow scheduling turn is enough
+                if (not confirm) or xseen < 3 and srvfam.confirmed(ctx, byid.get(t), c, rerun):
+                    ctx.inconclusive.append('rt trace %d: %s' % (t, c))
+                xseen += 1
                 continue
             if p in props or any(c.startswith(x) for x in props if ':' in x):
                 cls = c.split(' ')[0]
